@@ -66,6 +66,10 @@ TOKENS = [
     ("ABS_ROOT", "@root"),                   # absolute path of the root itself
     ("ABS_PREFIX_SIBLING", "@rootx/cfg1"),   # absolute path of a sibling whose name extends "root"
     ("REL_PREFIX_SIBLING", "rootx/cfg1"),    # tail for `../rootx/cfg1`
+    # composite tokens: traversals that are NOT at the start of the id fit into k tokens
+    ("up", "/.."),
+    ("up2", "/../.."),
+    ("SLASH_REL_PREFIX_SIBLING", "/rootx/cfg1"),
 ]
 
 FIXED = "Could not load the {ids} guardrails configuration. An internal error has occurred."
